@@ -112,7 +112,7 @@ def generate(seed: int, tier: str, phase: str) -> Dict[str, Any]:
         plan["ops"] = [{"op": "direct", "k": r.randrange(3), "gseed": r.randrange(4)} for _ in range(r.choice([1, 2]))]
         return plan
     ops: List[Dict[str, Any]] = [{"op": "transform"}]
-    kinds = ["call", "call", "call", "reset", "bad_call", "neighbour", "transform"]
+    kinds = ["call", "call", "call", "reset", "bad_call", "neighbour", "transform", "fleet"]
     enabled = {k for k in sorted(set(kinds)) if r.random() < 0.75} | {"call"}
     kinds = [k for k in kinds if k in enabled]
     ops.append({"op": "call", "j": 0, "k": r.randrange(3), "gseed": r.randrange(4), "bwd": True})
@@ -123,6 +123,8 @@ def generate(seed: int, tier: str, phase: str) -> Dict[str, Any]:
             op.update(j=r.randrange(8), k=r.randrange(3), gseed=r.randrange(4), bwd=r.random() < 0.8)
         elif k == "bad_call":
             op.update(j=r.randrange(8))
+        elif k == "fleet":
+            op.update(n=r.choice([9, 10, 12]), fseed=r.randrange(1 << 30))
         elif k == "neighbour":
             op.update(pseed=r.randrange(1 << 30), fwd=_gen_fmt(r), bwd=_gen_fmt(r))
             if r.random() < 0.5 and fwd[2] == "stochastic" and bwd[2] == "stochastic":
@@ -404,6 +406,20 @@ def _programs(plan: Dict[str, Any], res: Dict[str, Any], log: Any, prf: Any, pro
                          "plain": programs.Reference(opts_spec), "inputs": oin, "first": {},
                          "lossless": False, "sig": osig})
             probe("neighbour_modules")
+        elif k == "fleet":
+            # a format sweep: many transformed modules of one class in one process, each
+            # called once (whatever TorchDynamo caches per code object is shared by all of them)
+            import random as _random
+
+            fr = _random.Random(op["fseed"])
+            for j in range(op["n"]):
+                f_, b_ = _gen_fmt(fr), _gen_fmt(fr)
+                if f_[:2] == [8, 23] and b_[:2] == [8, 23]:
+                    f_ = [4, 3, "nearest", 0]
+                fm_ = transform(original, f_, b_, False)
+                compare(fm_, fm_, j % 3, 0, True, where + f" fleet member {j} {_fmtkey(f_)}>{_fmtkey(b_)}", {},
+                        programs.Reference(spec, q=(f_, b_)), inputs, False, plain, progsig)
+            probe("fleet_members", op["n"])
         elif not mods:
             continue
         elif k == "call":
